@@ -10,7 +10,7 @@ J gen_fault(const std::string& prop, uint64_t run_seed, const std::string& tier)
   knobs.set("be", kn.chance(1, 5) ? (uint64_t)BE_TAG : (uint64_t)BE_DIRECT); knobs.set("rm", kn.below(2)); knobs.set("maxreq", (uint64_t)1 << 20);
   knobs.set("kcap", tier == "thorough" ? 512 : 64);
   knobs.set("fill", kn.below(4) == 0 ? kn.range(1, 2) : 0);   // fresh memory: mostly 0xAA, sometimes all-zero or all-ones
-  knobs.set("fpmode", kn.below(4) == 0 ? 1 : 0);   // a quarter of the runs with FTZ/DAZ set in the thread's MXCSR
+  knobs.set("fpmode", gen_fpmode(kn));   // the calling thread's floating-point environment: FTZ/DAZ in a quarter of the runs, a directed rounding mode in a quarter
   plan.set("knobs", knobs);
   bool load_scn = prop == "C05" || g.chance(1, 4);
   if (load_scn) {
